@@ -772,12 +772,14 @@ def generic_copies(ctx, func: Func) -> List[GenericCopy]:
                 # a conversion helper that was expanded into a conditional expression: `int(x) if .. else x` with x = src.k
                 leaves = [l for _c, l in split_cases(ctx, func, vx)]
                 base = [l for l in leaves if get_attr_expr(l) is not None]
-                calls = [l for l in leaves if isinstance(l, ast.Call) and isinstance(l.func, ast.Name) and len(l.args) == 1 and not l.keywords
-                         and base and same(l.args[0], base[0])]
+                calls = [l for l in leaves if isinstance(l, ast.Call) and base and get_attr_expr(l) is None
+                         and any(same(n_, base[0]) for n_ in ast.walk(l))]
                 if base and calls and len(base) + len(calls) == len(leaves) and all(same(b_, base[0]) for b_ in base):
-                    non_str = [c_ for c_ in calls if c_.func.id != 'str']
+                    non_str = [c_ for c_ in calls if not (isinstance(c_.func, ast.Name) and c_.func.id == 'str' and len(c_.args) == 1
+                                                          and same(c_.args[0], base[0]))]
                     if non_str:
-                        wrap = (non_str[0].func.id, v)
+                        wrap = (non_str[0].func.id if isinstance(non_str[0].func, ast.Name) else (attr_path(non_str[0].func) or src(non_str[0].func)),
+                                v, non_str[0], base[0])
                     vx = base[0]
             ga = get_attr_expr(vx)
             ok = False
